@@ -321,61 +321,57 @@ def xorNot (l r : Pred V) : Option (Pred V) :=
   | .not a, .not b => some (.xor a b)                                     -- XOR-p1
   | l, r => if Pred.beq l (negate r) then some .tt else none              -- XOR-p2
 
+/-- One guarded arm of XOR8 (quirk xorNotAnd): `c` is the conjunct tested for being
+`~l`, `other` the remaining conjunct. -/
+def xorAndGuard (cfg : Cfg) (l c other : Pred V) : Option (R V) :=
+  match c with
+  | .not q =>
+    if Pred.beq l q then
+      match cfg .xorNotAnd with
+      | .impl => some (retQ .xorNotAnd (.not (.or l other)))
+      | .fixed => some (ret (.or l other))
+      | .off => none
+    else none
+  | _ => none
+
+/-- The default arm of XOR8 (quirk xorAndUnguarded). -/
+def xorAndDefault (cfg : Cfg) (l a b : Pred V) : R V :=
+  match cfg .xorAndUnguarded with
+  | .impl => retQ .xorAndUnguarded (.and l (.not b))
+  | .fixed =>
+    if Pred.beq l a then ret (.and l (.not b))
+    else if Pred.beq l b then ret (.and l (.not a))
+    else ret (.xor l (.and a b))
+  | .off => ret (.xor l (.and a b))
+
 /-- XOR8: right operand is a conjunction; terminal. -/
 def xorAnd (cfg : Cfg) (l a b : Pred V) : R V :=
-  let k1 : Option (R V) :=
-    match a with
-    | .not q =>
-      if Pred.beq l q then
-        match cfg .xorNotAnd with
-        | .impl => some (retQ .xorNotAnd (.not (.or l b)))
-        | .fixed => some (ret (.or l b))
-        | .off => none
-      else none
-    | _ => none
-  match k1 with
+  match xorAndGuard cfg l a b with
   | some res => res
   | none =>
-    let k2 : Option (R V) :=
-      match b with
-      | .not q =>
-        if Pred.beq l q then
-          match cfg .xorNotAnd with
-          | .impl => some (retQ .xorNotAnd (.not (.or l a)))
-          | .fixed => some (ret (.or l a))
-          | .off => none
-        else none
-      | _ => none
-    match k2 with
+    match xorAndGuard cfg l b a with
     | some res => res
-    | none =>
-      match cfg .xorAndUnguarded with
-      | .impl => retQ .xorAndUnguarded (.and l (.not b))
-      | .fixed =>
-        if Pred.beq l a then ret (.and l (.not b))
-        else if Pred.beq l b then ret (.and l (.not a))
-        else ret (.xor l (.and a b))
-      | .off => ret (.xor l (.and a b))
+    | none => xorAndDefault cfg l a b
+
+/-- `p ^ (p | q)` (quirk xorOr). -/
+def xorOrMk (cfg : Cfg) (p q : Pred V) : Option (R V) :=
+  match cfg .xorOr with
+  | .impl => some (retQ .xorOr q)
+  | .fixed => some (ret (.and (.not p) q))
+  | .off => none
+
+/-- `x ^ d` where `d` may be a disjunction containing `x`. -/
+def xorOrSide (cfg : Cfg) (x d : Pred V) : Option (R V) :=
+  match d with
+  | .or a b =>
+    if Pred.beq x a then xorOrMk cfg x b
+    else if Pred.beq x b then xorOrMk cfg x a
+    else none
+  | _ => none
 
 /-- XOR10 … XOR13 (quirk xorOr). -/
 def xorOrRule (cfg : Cfg) (l r : Pred V) : Option (R V) :=
-  let mk (p q : Pred V) : Option (R V) :=       -- p ^ (p | q)
-    match cfg .xorOr with
-    | .impl => some (retQ .xorOr q)
-    | .fixed => some (ret (.and (.not p) q))
-    | .off => none
-  orElse (match r with
-          | .or a b =>
-            if Pred.beq l a then mk l b                                   -- XOR10
-            else if Pred.beq l b then mk l a                              -- XOR11
-            else none
-          | _ => none) fun _ =>
-  match l with
-  | .or a b =>
-    if Pred.beq r a then mk r b                                           -- XOR12
-    else if Pred.beq r b then mk r a                                      -- XOR13
-    else none
-  | _ => none
+  orElse (xorOrSide cfg l r) fun _ => xorOrSide cfg r l       -- XOR10/11, then XOR12/13
 
 def stepXor (cfg : Cfg) (rec : Pred V → R V) (l r : Pred V) : R V :=
   match xorNot l r with
